@@ -206,6 +206,15 @@ def dropOK (e : String × List String × String × Bool) : Bool :=
 def tableTyped (tbl : Table) : Bool :=
   tbl.all checkEntry && tbl.all dropOK && tbl.all (fun e => !isLayoutSym e.1)
 
+def prodOf (e : String × List String × String × Bool) : String × List String := (e.1, e.2.1)
+
+/-- `_check_productions` (the registered productions are exactly `module_ir.PRODUCTIONS`),
+plus pairwise distinctness. -/
+def tableMatchesGrammar (tbl : Table) (grammar : List (String × List String)) : Bool :=
+  decide ((tbl.map prodOf).Nodup) &&
+  grammar.all (fun p => (tbl.map prodOf).contains p) &&
+  (tbl.map prodOf).all (fun p => grammar.contains p)
+
 /-! ## Trees of the grammar -/
 
 /-- Root symbol of a tree. -/
